@@ -37,6 +37,19 @@ def f32Bits (q : Rat) : Option Nat :=
         if be < 1 ∨ be > 254 ∨ m < 2 ^ 23 ∨ m ≥ 2 ^ 24 then none
         else some (sign * 2 ^ 31 + be.toNat * 2 ^ 23 + (m - 2 ^ 23))
 
+/-- the rational a binary32 word denotes (`none` for infinities, NaNs and subnormals) -/
+def f32ToRat (w : Nat) : Option Rat :=
+  let sign : Nat := w / 2 ^ 31 % 2
+  let be : Nat := w / 2 ^ 23 % 256
+  let m : Nat := w % 2 ^ 23
+  if be == 0 then (if m == 0 then some 0 else none)
+  else if be == 255 then none
+  else
+    let mant : Rat := ((2 ^ 23 + m : Nat) : Rat)
+    let e : Int := Int.ofNat be - 150
+    let v : Rat := if e ≥ 0 then mant * ((2 ^ e.toNat : Nat) : Rat) else mant / ((2 ^ (-e).toNat : Nat) : Rat)
+    some (if sign == 1 then -v else v)
+
 /-! ### wire file -/
 
 structure WUnit where
